@@ -112,9 +112,9 @@ class Setup:
             s = cls.model_construct(**args)
             s._t = FakeT(dt, T)
             if kind != "flow":
-                zero = symnp.SymArr.fresh([self.n, self.n] + self.esizes, lambda idx: z3.RealVal(0))
-                s._stock_by_cohort = zero
-                s._outflow_by_cohort = zero.copy()
+                # arbitrary previous contents (the object may have been computed before with other inputs)
+                s._stock_by_cohort = symnp.SymArr.input("old_sbc" + tag, tuple([self.n, self.n] + self.esizes))
+                s._outflow_by_cohort = symnp.SymArr.input("old_obc" + tag, tuple([self.n, self.n] + self.esizes))
             self.s = s
         else:
             import numpy as np
@@ -1139,3 +1139,97 @@ def u_mustfail_balance(W, sk):
         W.prove("mf.balance(wrong: no interval length)", W.num_eq(stock(t) - stock(t - 1), inflow0(t) - outflow0(t)))
     else:
         W.forall_range("mf.balance(wrong: no interval length)", [(1, S.n)], lambda idx: W.num_eq(stock(idx[0]) - stock(idx[0] - 1), inflow0(idx[0]) - outflow0(idx[0])))
+
+
+# ----------------------------------------------------------------------------------------
+# C17: recomputing reflects the current inputs only
+
+
+@unit(
+    "stocks.recompute",
+    props=["C17"],
+    targets=["flodym.stocks.InflowDrivenDSM.compute", "flodym.stocks.StockDrivenDSM.compute", "flodym.stocks.SimpleFlowDrivenStock.compute"],
+    skeletons=lambda tier: [{"model": m, "extra": e, "solver": s} for (m, s) in (("inflow", None), ("stock", "manual"), ("stock", "lapack"), ("flow", None)) for e in ((0,) if s == "lapack" else (0, 1))],
+    stubs=["flodym.lifetime_models.LifetimeModel.sf", "flodym.lifetime_models.LifetimeModel.pdf", "flodym.lifetime_models.UnevenTimeDim.interval_lengths", "scipy.linalg.solve_triangular"],
+    note="the stock object starts with arbitrary previous results (outputs and cohort tables are unconstrained symbols); compute() with driver d1, then the driver is overwritten in place with d2 and compute() runs again: every result equals that of a fresh object computed with d2 (same survival table and grid); a third compute() changes nothing",
+)
+def u_recompute(W, sk):
+    kind = sk["model"]
+    conc = [] if sk["solver"] == "lapack" else None
+    S = Setup(W, kind, sk["extra"], solver=sk["solver"] or "manual", concrete_extra=conc, tag="_a")
+    drivers = {"inflow": ["inflow"], "stock": ["stock"], "flow": ["inflow", "outflow"]}[kind]
+
+    sols = {}
+
+    def run(S_):
+        if kind == "stock":
+            o, st0, sol = run_stock_driven(W, S_)
+            sols[id(S_)] = (st0, sol)
+            return o
+        return W.call(lambda: S_.s.compute())
+
+    out = run(S)
+    W.prove("recompute.first_returns", out.kind == "return", detail=repr(out))
+    if out.kind != "return":
+        return
+    # new driver values, written in place into the existing arrays
+    new = {}
+    for d in drivers:
+        if W.symbolic:
+            new[d] = W.ndarray(d + "_second", [S.n] + S.esizes)
+        else:
+            import numpy as np
+
+            new[d] = np.array(getattr(S.s, d).values) * -0.5 + 3.0
+        arr = getattr(S.s, d)
+        W.call(lambda: arr.__setitem__(Ellipsis, new[d]))
+    out = run(S)
+    W.prove("recompute.second_returns", out.kind == "return", detail=repr(out))
+    if out.kind != "return":
+        return
+    F = Setup(W, kind, sk["extra"], solver=sk["solver"] or "manual", concrete_extra=conc, preset={d: (new[d].copy() if hasattr(new[d], "copy") else new[d]) for d in drivers}, tag="_fresh")
+    outF = run(F)
+    W.prove("recompute.fresh_returns", outF.kind == "return", detail=repr(outF))
+    if outF.kind != "return":
+        return
+    names = ["stock", "inflow", "outflow"]
+    def results(S_):
+        r = {nm: (S_.rd(getattr(S_.s, nm).values), 1) for nm in names}
+        if kind != "flow":
+            r["stock_by_cohort"] = (S_.rd(S_.s._stock_by_cohort), 2)
+            r["outflow_by_cohort"] = (S_.rd(S_.s._outflow_by_cohort), 2)
+        return r
+
+    RS, RF = results(S), results(F)
+    n = S.n
+    if kind == "stock" and W.symbolic:
+        sfr = S.rd(S.sf)
+        rs = list(itertools.product(*[range(int(e)) for e in S.esizes])) if sk["solver"] == "lapack" else [tuple(W.fresh_int(f"rc_r{j}", 0, e) for j, e in enumerate(S.esizes))]
+        agree = {}
+        for r in rs:
+            x1, row1 = solved_row(W, S, sols[id(S)][0], sols[id(S)][1], r)
+            x2, row2 = solved_row(W, F, sols[id(F)][0], sols[id(F)][1], r)
+
+            def row2_for_S(k, row2=row2, x2=x2, r=r):
+                ok = row2(k)
+                W.c.assume(core.as_z3_bool(ok), why="row equations of the fresh object (premise proved separately)")
+                return row_equation(W, S, lambda j, *rr: x2(j), sols[id(S)][0], k, r)
+
+            k = W.fresh_int("rc_k", 0, n)
+            W.prove("recompute.rows_fresh_object", row2(k), kind="lemma-premise")
+            agree[r] = W.lemma_tri_unique(f"recompute.unique{[a for a in r if isinstance(a, int)]}", n, row1, row2_for_S, lambda k, r=r: sfr(k, k, *r) != 0, x1, x2)
+        compare_results(W, "recompute.equals_fresh_object", S, F, agree, rs)
+    for nm in RS:
+        nt = RS[nm][1]
+        rngs = [(0, n)] * nt + S.extra_ranges()
+        if kind == "stock" and W.symbolic and nm != "stock":
+            continue  # equality of the two solver outputs is the TRI-UNIQUE argument of stocks.solvers_agree; here: same code, same inputs
+        W.forall_range(f"recompute.{nm}_equals_fresh_object", rngs, (lambda a, b: lambda idx: W.num_eq(a(*idx), b(*idx)))(RS[nm][0], RF[nm][0]))
+    # idempotence
+    before = {nm: (S.rd(getattr(S.s, nm).values.copy()), 1) for nm in names}
+    out3 = run(S)
+    W.prove("recompute.third_returns", out3.kind == "return")
+    if kind != "stock" or not W.symbolic:
+        after = results(S)
+        for nm in names:
+            W.forall_range(f"recompute.idempotent.{nm}", [(0, n)] + S.extra_ranges(), (lambda a, b: lambda idx: W.num_eq(a(*idx), b(*idx)))(after[nm][0], before[nm][0]))
